@@ -1,4 +1,4 @@
-import JenVerif.Render
+import JenVerif.FileRender
 /-
   T-R / T-X: the stateful renderer (which registers imports on the fly) equals the pure
   renderer under the FINAL naming; registered names never change (stability).
@@ -292,6 +292,18 @@ theorem renderDict_spec (cfg : Cfg) (es : List (DEntry FileS)) (ps : List (Code 
   rw [← l1.2.2 f3 (l2.1.trans h3)]
   simp
 
+/-- the only codes whose stateful and pure renderings can differ are NULL package tokens (the
+    local path, a dot import): they are never rendered, only pre-registered -/
+def PkgNonNull (f : FileS) : Code → Prop
+  | .tok .pkg s => f.np s = false
+  | _ => True
+
+theorem pkgNonNull_of_nonNull (f : FileS) (c : Code) (h : isNull f.np c = false) : PkgNonNull f c := by
+  unfold PkgNonNull
+  split
+  · simpa [isNull] using h
+  · trivial
+
 /-- the pre-registration step of `renderItems` -/
 def preReg (cfg : Cfg) (f : FileS) (c : Code) : FileS :=
   match c with
@@ -318,13 +330,13 @@ theorem renderItemsS_cons (cfg : Cfg) (g : GInfo) (first : Bool) (f : FileS) (c 
 
 mutual
 theorem renderS_spec (cfg : Cfg) : ∀ (c : Code) (f : FileS) (prev : Option Code),
-    Good cfg f → isNull f.np c = false → Spec cfg f prev c
-  | .nilc, f, _, _, hn => by simp [isNull] at hn
+    Good cfg f → PkgNonNull f c → Spec cfg f prev c
+  | .nilc, f, _, _, _ => ⟨by simpa [renderS] using Ext.refl f, by intro f3 _; simp [renderS, renderP]⟩
   | .tok k s, f, prev, hg, hn => by
       cases k
       case pkg =>
         have hl : isLocal f s = false := by
-          simp only [isNull, FileS.np, Bool.or_eq_false_iff] at hn
+          simp only [PkgNonNull, FileS.np, Bool.or_eq_false_iff] at hn
           exact hn.2
         have hr := hg f (SameStatic.refl f) s hl
         refine ⟨by simpa [renderS] using register_ext cfg f hg s, ?_⟩
@@ -395,7 +407,7 @@ theorem renderItemsS_spec (cfg : Cfg) : ∀ (cs : List Code) (g : GInfo) (first 
           rw [isNull_ext (ih.1.trans h3) c]; exact hn
         simpa [renderItemsP, hn3] using ih.2 f3 h3
       · have hn' : isNull (preReg cfg f c).np c = false := by simpa using hn
-        have h1 := renderS_spec cfg c (preReg cfg f c) none hg0 hn'
+        have h1 := renderS_spec cfg c (preReg cfg f c) none hg0 (pkgNonNull_of_nonNull _ c hn')
         unfold Spec at h1
         have hg1 := good_of_ext hg0 h1.1
         have ih := renderItemsS_spec cfg cs g false (renderS cfg (preReg cfg f c) none c).2 hg1
@@ -427,7 +439,7 @@ theorem renderStmtS_spec (cfg : Cfg) : ∀ (cs : List Code) (first : Bool) (prev
           rw [isNull_ext (ih.1.trans h3) c]; exact hn
         simpa [renderStmtP, hn3] using ih.2 f3 h3
       · have hn' : isNull f.np c = false := by simpa using hn
-        have h1 := renderS_spec cfg c f prev hg hn'
+        have h1 := renderS_spec cfg c f prev hg (pkgNonNull_of_nonNull _ c hn')
         unfold Spec at h1
         have hg1 := good_of_ext hg h1.1
         have ih := renderStmtS_spec cfg cs false (some c) (renderS cfg f prev c).2 hg1
@@ -446,9 +458,41 @@ theorem dictEntries_ok (cfg : Cfg) : ∀ ps : List (Code × Code), EntriesOK cfg
   | (k, v) :: ps => by
       rw [dictEntriesS]
       exact .cons
-        ⟨⟨fun _ => rfl, fun _ => rfl, fun f hg hn => renderS_spec cfg k f none hg hn⟩,
-         ⟨fun _ => rfl, fun _ => rfl, fun f hg hn => renderS_spec cfg v f none hg hn⟩⟩
+        ⟨⟨fun _ => rfl, fun _ => rfl, fun f hg hn => renderS_spec cfg k f none hg (pkgNonNull_of_nonNull _ k hn)⟩,
+         ⟨fun _ => rfl, fun _ => rfl, fun f hg hn => renderS_spec cfg v f none hg (pkgNonNull_of_nonNull _ v hn)⟩⟩
         (dictEntries_ok cfg ps)
 end
+
+/-- T-R for a whole file: the unformatted source is head ++ import block ++ PURE rendering of the
+    body, all three under the FINAL registry `f1`; and `f1` extends the initial state -/
+theorem renderFileRaw_pure (cfg : Cfg) (f : FileS) (body : List Code) (hg : Good cfg f) :
+    let f1 := (renderFileRaw cfg f body).2
+    Ext f f1 ∧
+    (renderFileRaw cfg f body).1 =
+      fileHead cfg.isPrint f1 ++ renderImports cfg.isPrint f1 ++ renderP cfg (envOf f1) none (.group fileInfo body) := by
+  have h := renderS_spec cfg (.group fileInfo body) f none hg trivial
+  unfold Spec at h
+  simp only [renderFileRaw]
+  exact ⟨h.1, by rw [h.2 _ (Ext.refl _)]⟩
+
+/-- T-X over repeated renders: a second render from the state the first one left produces the
+    same body text (names are stable, null-ness is stable) -/
+theorem rerender_same (cfg : Cfg) (f : FileS) (prev : Option Code) (c : Code) (hg : Good cfg f) (hn : PkgNonNull f c) :
+    let f1 := (renderS cfg f prev c).2
+    (renderS cfg f1 prev c).1 = (renderS cfg f prev c).1 ∧ Ext f1 (renderS cfg f1 prev c).2 := by
+  have h1 := renderS_spec cfg c f prev hg hn
+  unfold Spec at h1
+  have hg1 := good_of_ext hg h1.1
+  have hn1 : PkgNonNull (renderS cfg f prev c).2 c := by
+    unfold PkgNonNull at hn ⊢
+    split
+    · rename_i s
+      simp only at hn
+      rw [h1.1.np s]; exact hn
+    · trivial
+  have h2 := renderS_spec cfg c (renderS cfg f prev c).2 prev hg1 hn1
+  unfold Spec at h2
+  refine ⟨?_, h2.1⟩
+  rw [h2.2 _ (Ext.refl _), h1.2 _ h2.1]
 
 end Refine
